@@ -506,6 +506,22 @@ func runCoreScripted(seed uint64, n int, out *Out) {
 			c.endBlock()
 			c.endBlock()
 		},
+		// 14: a big market under the default-sized budgets (bet batch 1000, order-book batch 100): 300 pending bets on
+		//     two outcomes are resolved at once; every one of them must be settled by the first end-block after the
+		//     resolution (the bound is ⌊300/1000⌋ + ⌊1/100⌋ + 1 = 1), whatever page size the implementation reads by
+		func(h int) {
+			c := newCoreScript(out, h, 100, 0, 2, 1, 0, 1000, 100)
+			m := c.market(2)
+			c.deposit(m, 1, 900000)
+			for i := 0; i < 300; i++ {
+				c.wager(m, 6+i%2, i%2, "2", 51)
+			}
+			c.endBlock()
+			c.resolve(m, 5, 1)
+			c.endBlock()
+			c.endBlock()
+			c.endBlock()
+		},
 	}
 	for h, f := range scripts {
 		if skipHist(h) {
